@@ -6,6 +6,9 @@
      c06 parse x<str> [1]         -> ( ok ( v e ) ) | ( null ) | ( err )      (UnmarshalText)
      c06 parse_json x<raw> [1]    -> same                                     (UnmarshalJSON)
      c06 pct_parse / pct_parse_json
+     c06 all x<str> x<json> [1]   -> the six readings above, the two matches, ( f ) (the Go side appends the
+                                     struct-field results inside ( f ... ))
+     c06 all_a / all_p x<str> x<json> [1] -> the three amount / percentage readings, ( f )
      c06 matches x<str> / pct_matches x<str> -> 0 | 1                         (the published pattern) *)
 From Coq Require Import ZArith List String Bool.
 From Verif Require Import Base.Wire Num.Amount Num.Codec.
@@ -44,6 +47,23 @@ Definition run_c06 (args : list V) : list V :=
     else if String.eqb op "parse_json" then [c06_read (unmarshal_json pa (vs_ a1))]
     else if String.eqb op "pct_parse" then [c06_read (unmarshal_text (parse_pct_with pa) (vs_ a1))]
     else if String.eqb op "pct_parse_json" then [c06_read (unmarshal_json (parse_pct_with pa) (vs_ a1))]
+    else if String.eqb op "all" then
+      let s := vs_ a1 in
+      let q := b_quote :: s ++ [b_quote] in
+      let fixed := vz (nth 2 rest (VI 0)) =? 1 in
+      let pa := if fixed then parse_amount_fixed else parse_amount in
+      [c06_read (unmarshal_text pa s); c06_read (unmarshal_json pa s); c06_read (unmarshal_json pa q);
+       c06_read (unmarshal_text (parse_pct_with pa) s); c06_read (unmarshal_json (parse_pct_with pa) s);
+       c06_read (unmarshal_json (parse_pct_with pa) q);
+       VB (matches_amount_pattern s); VB (matches_pct_pattern s); VL [VS (bs "f")]]
+    else if String.eqb op "all_a" || String.eqb op "all_p" then
+      let s := vs_ a1 in
+      let q := b_quote :: s ++ [b_quote] in
+      let fixed := vz (nth 2 rest (VI 0)) =? 1 in
+      let pa := if fixed then parse_amount_fixed else parse_amount in
+      let rd := if String.eqb op "all_a" then pa else parse_pct_with pa in
+      [c06_read (unmarshal_text rd s); c06_read (unmarshal_json rd s); c06_read (unmarshal_json rd q);
+       VL [VS (bs "f")]]
     else if String.eqb op "matches" then [VB (matches_amount_pattern (vs_ a1))]
     else if String.eqb op "pct_matches" then [VB (matches_pct_pattern (vs_ a1))]
     else [verr "unknown-c06-op"]
